@@ -51,7 +51,12 @@ def scenario(t, rng, nops, lww_unique=True, small=True):
     def local(o, n):
         if t == "l":
             # a node's clock readings strictly increase (stated assumption); both nodes use overlapping ranges
+            # ... and, half of the time, this write uses exactly the timestamp another node has already used
+            # (same tick on two replicas): the node-id tie-break decides, identically everywhere
             ts = last_ts.get(n, rng.choice([-3, 0, 4])) + rng.choice([1, 1, 2, 5])
+            others = [v for m_, v in last_ts.items() if m_ != n and v >= ts - 1 and v > last_ts.get(n, -10 ** 9)]
+            if others and rng.random() < 0.6:
+                ts = rng.choice(others)
             last_ts[n] = ts
             ops.append({"o": "lset", "d": o, "s": o, "n": n, "e": rng.randrange(1, cu.NVALS), "ts": ts})
         elif t == "m":
@@ -126,6 +131,18 @@ def corpus():
             {"o": "merge", "d": 13, "a": 13, "b": 0}, {"o": "fold", "d": 2, "a": 2, "v": cu.fold_v([4])}]
     P.append({"t": "s", "kind": "corpus-orset-delta-add-remove", "ops": ops,
               "chk": {"deltas": [8], "orig": [0], "exp": 10, "recv": [{"i": 11, "kind": "deltas-in-ship-order", "slots": [4]}]}})
+    # LWW: two nodes write different values with exactly the same timestamp; receivers in both orders and a late third one
+    ops = [{"o": "new", "d": i, "t": "l"} for i in (0, 1, 2, 3, 14, 13)]
+    ops += [{"o": "lset", "d": 0, "s": 0, "n": 1, "e": 1, "ts": 7}, {"o": "delta", "d": 4, "s": 0}, {"o": "reset", "s": 0},
+            {"o": "lset", "d": 1, "s": 1, "n": 4, "e": 2, "ts": 7}, {"o": "delta", "d": 5, "s": 1}, {"o": "reset", "s": 1},
+            {"o": "merge", "d": 0, "a": 0, "b": 5}, {"o": "merge", "d": 1, "a": 1, "b": 4},
+            {"o": "merge", "d": 13, "a": 13, "b": 0}, {"o": "merge", "d": 13, "a": 13, "b": 1},
+            {"o": "fold", "d": 2, "a": 2, "v": cu.fold_v([4, 5])}, {"o": "fold", "d": 3, "a": 3, "v": cu.fold_v([5, 4, 5])},
+            {"o": "fold", "d": 14, "a": 14, "v": cu.fold_v([1, 0])}, {"o": "fold", "d": 12, "a": 0, "v": cu.fold_v([])}, {"o": "fold", "d": 11, "a": 1, "v": cu.fold_v([])}]
+    P.append({"t": "l", "kind": "corpus-lww-equal-timestamp-two-nodes", "ops": ops,
+              "chk": {"deltas": [7, 10], "orig": [0, 1], "exp": 15, "recv": [{"i": 16, "kind": "deltas-in-ship-order", "slots": [4, 5]},
+                      {"i": 17, "kind": "deltas-shuffled-duplicated", "slots": [5, 4, 5]}, {"i": 18, "kind": "deltas-and-full-states", "slots": [1, 0]},
+                      {"i": 19, "kind": "originator-after-exchange", "slots": []}, {"i": 20, "kind": "originator-after-exchange", "slots": []}]}})
     # GCounter uint64 wrap between two ships (tie only: outside the stated no-overflow assumption)
     ops = [{"o": "new", "d": i, "t": "g"} for i in (0, 2, 13)]
     ops += [{"o": "inc", "d": 0, "s": 0, "n": 1, "v": 2 ** 63}, {"o": "delta", "d": 4, "s": 0}, {"o": "reset", "s": 0},
@@ -213,7 +230,7 @@ def run(ctx):
     rng = ctx.rng
     progs = corpus()
     n = 1500 if ctx.thorough else 260
-    types = ["g", "pn", "f", "l", "mv", "s", "m", "s", "g", "mv", "m"]
+    types = ["g", "pn", "f", "l", "mv", "s", "m", "l", "s", "g", "mv", "m", "l"]
     for i in range(n):
         t = types[i % len(types)]
         progs.append(scenario(t, rng, rng.choice([3, 6, 10]), lww_unique=True, small=(rng.random() < 0.7)))
